@@ -174,6 +174,10 @@ C05Clauses ==
        ClauseAt("HyPositive", \A x \in XS : \A y \in YS : H[loc][x + 1][y + 1] > 0 /\ H[loc][x + 1][y + 1] # NANV, loc)
   /\ ClauseAt("HyCentreIsArc", \A x \in XS : \A y \in YS :
         ArcNear(H.centre[x + 1][y + 1], A.Alo_c[x + 1][y + 1] + A.Ahi_c[x + 1][y + 1]), "centre")
+  \* boundary guard cells lie on the short, nearly straight continuation of the contour beyond the target: there hy dy is the arc to 5e-4 (measured
+  \* on the unchanged tree: 2.2e-5 at worst, whatever Nfine); a chord measured instead of the arc misses by 1.5e-3 (seed C05_guard_distance_by_chord)
+  /\ ClauseAt("HyGuardCellIsArc", \A x \in XS : \A y \in YS :
+        ~IsGuard(y) \/ RelNearF(H.centre[x + 1][y + 1], A.Alo_c[x + 1][y + 1] + A.Ahi_c[x + 1][y + 1], 2000, 30), "guards")
   /\ ClauseAt("HyYlowIsArc", \A x \in XS : \A y \in YS :
         Down(x, y) # -1 => ArcNear(H.ylow[x + 1][y + 1], A.Alo_c[x + 1][y + 1] + A.Ahi_c[x + 1][Down(x, y) + 1]), "ylow")
   /\ ClauseAt("HyXlowIsArc", \A x \in XS : \A y \in YS :
@@ -285,8 +289,12 @@ MirY(y) == LET r == RegY(y)
 \* how each variable changes under the transformation: +1 same, -1 sign flips, 0 not compared
 SignTable(kind, v) ==
   CASE kind = "same" -> 1
-    [] kind = "negpsi" -> IF v \in {"psixy", "Bpxy", "Brxy", "Bzxy", "J", "dx", "dphidy"} THEN -1 ELSE 1
-    [] kind = "revbt" -> IF v \in {"Btxy", "g23", "g_23", "dphidy", "zShift"} THEN -1 ELSE 1
+    \* curvature: b/B = B/B^2; under psi -> -psi the poloidal part of B flips, so (curl)_zeta, grad(x) = grad(psi) and the Bt hy/(Bp R) term of
+    \* grad(z) flip while grad(y) (the direction of increasing y) does not: x and z components flip, y does not.  Under Bt -> -Bt the
+    \* toroidal part of b/B flips, so (curl)_R and (curl)_Z flip: x and y components flip, z does not (its two terms are each even).
+    \* ShiftTorsion = d(dphidy)/dx: odd in Bt, even in the sign of psi (dphidy and x both flip).
+    [] kind = "negpsi" -> IF v \in {"psixy", "Bpxy", "Brxy", "Bzxy", "J", "dx", "dphidy", "curl_bOverB_x", "curl_bOverB_z", "bxcvx", "bxcvz"} THEN -1 ELSE 1
+    [] kind = "revbt" -> IF v \in {"Btxy", "g23", "g_23", "dphidy", "zShift", "curl_bOverB_x", "curl_bOverB_y", "bxcvx", "bxcvy", "ShiftTorsion"} THEN -1 ELSE 1
     [] kind = "mirror" -> IF v \in {"zShift", "Brxy", "Bzxy"} THEN 0 ELSE 1
     [] OTHER -> 0
 C16Clauses ==
